@@ -61,7 +61,8 @@ def child():
 
 
 def case_strategy():
-    arg = st.one_of(st.tuples(st.just("d"), pairs()).map(list), st.tuples(st.just("d"), pairs()).map(list), st.tuples(st.just("c"), child()).map(list))
+    # "a": the attribute map of another, existing tag is handed over as the positional dict
+    arg = st.one_of(st.tuples(st.just("d"), pairs()).map(list), st.tuples(st.just("d"), pairs()).map(list), st.tuples(st.just("c"), child()).map(list), st.tuples(st.just("a"), pairs()).map(list))
     later = st.one_of(
         st.tuples(st.just("update"), st.lists(pairs(), max_size=2), pairs(2)).map(list),
         st.tuples(st.just("set"), raw_names(), values()).map(list),
@@ -153,11 +154,18 @@ def body(case, note):
     args_real = []
     seq = []
     children_real = []
+    donors = []
     for kind, payload in case["args"]:
         if kind == "d":
             ps = uniq(payload)
             args_real.append({r: val_obj(v) for r, v in ps})
             seq += ps
+        elif kind == "a":
+            donor = h.Tag("i", {r: val_obj(v) for r, v in uniq(payload)})
+            donors.append((donor, S.snap(donor)))
+            args_real.append(donor.attrs)
+            # what the donor stores (normalised names, merged values) is what is being passed
+            seq += [(k, {"html": v.data} if isinstance(v, h.HTML) else v) for k, v in donor.attrs.items()]
         else:
             c = build(payload)
             args_real.append(c)
@@ -219,6 +227,9 @@ def body(case, note):
                 replaced = replaced or nm in model
                 model[nm] = [p]
         check_stored(tag.attrs, model, st_[0])
+    for donor, snap0 in donors:
+        check(tag.attrs is not donor.attrs, "the new tag's attribute map is the very object that was passed in")
+        check(S.snap(donor) == snap0, "building / updating a tag changed the tag whose attribute map was passed to the constructor", snap0, S.snap(donor))
     # rendering shows exactly these attributes in this order
     out = tag.get_html_string()
     pos = len("<" + name)
@@ -228,7 +239,8 @@ def body(case, note):
         pos = out.index('"', pos + len(lit)) + 1 if all(p[0] == "plain" for p in model[k]) else out.index('"', pos + len(lit)) + 1
         if not all(p[0] == "plain" for p in model[k]):
             break
-    note(collide and dropped, "later-replaces" if replaced else "", "collision" if collide else "", "children-interleaved" if children_real and any(a[0] == "d" for a in case["args"]) else "", "via:" + case["via"], "after-failed-call" if poison else "", "ws-keyword-forwarded" if case.get("ws_kw") is not None else "",
+    note(collide and dropped, "later-replaces" if replaced else "", "collision" if collide else "", "children-interleaved" if children_real and any(a[0] == "d" for a in case["args"]) else "", "via:" + case["via"], "after-failed-call" if poison else "", "ws-keyword-forwarded" if case.get("ws_kw") is not None else "", "attrs-of-another-tag-passed" if donors and case["later"] else "",
+         "lone-attrs-of-another-tag-then-changed" if donors and len([a for a in case["args"] if a[0] != "c"]) == 1 and not kw and case["later"] else "",
          "non-finite-number" if any(isinstance(v, dict) and "float" in v for _, v in seq) else "")
 
 
@@ -245,5 +257,5 @@ RULE = (
 )
 
 CLAUSES = [
-    Clause("model", body, strategy=case_strategy, quick=1200, thorough=20000, shards_quick=4, required=("later-replaces", "collision", "children-interleaved", "after-failed-call", "ws-keyword-forwarded", "non-finite-number"), rule="see RULE"),
+    Clause("model", body, strategy=case_strategy, quick=1200, thorough=20000, shards_quick=4, required=("later-replaces", "collision", "children-interleaved", "after-failed-call", "ws-keyword-forwarded", "non-finite-number", "attrs-of-another-tag-passed", "lone-attrs-of-another-tag-then-changed"), rule="see RULE"),
 ]
